@@ -34,6 +34,11 @@ KV_RULE = ("programs = operation paths exported by TLC from KVStore.tla (one per
 
 
 def kv_family(ctx, prop, design_props, what):
+    cov = kv_run(ctx, prop, design_props, what)
+    return vlib.finish(ctx, cov)
+
+
+def kv_run(ctx, prop, design_props, what):
     quick = ctx.tier == "quick"
     # 1. design: the implementation-shaped model satisfies the abstract properties; export one
     #    operation path per distinct state
@@ -64,7 +69,7 @@ def kv_family(ctx, prop, design_props, what):
            "VERIF_KV_BIG": 0 if quick else 2}
     rc, o = vlib.go_test(ctx, "kv", "TestKV", env=env, timeout=1500)
     if crash_or_fail(ctx, rc, o, "running storage programs"):
-        return vlib.finish(ctx, {"evaluations": 0, "distinct_nontrivial": 0, "rule": KV_RULE, "samples": ["crash"]})
+        return {"evaluations": 0, "distinct_nontrivial": 0, "rule": KV_RULE, "samples": ["crash"]}
     summ = json.load(open(os.path.join(out, "kv.summary.json")))
     # 2. validation of what the real store answered against KVStoreAbs
     accepted, failures = vlib.validate_chunks(ctx, "KVStoreTrace", "KVStoreTrace.cfg", os.path.join(out, "kv.ndjson"),
@@ -86,7 +91,7 @@ def kv_family(ctx, prop, design_props, what):
            "exhaustive": False,
            "explanation": "design: every state of KVStore.tla within the bounds; code: each exported path replayed on "
                           "the real store and its full read-back validated by TLC against KVStoreAbs (Prop=%s)" % prop}
-    return vlib.finish(ctx, cov)
+    return cov
 
 
 @register("C11")
@@ -108,9 +113,64 @@ def selftest(ctx):
     raise Inconclusive("selftest not built yet")
 
 
-@register("C12KV")
-def c12kv(ctx):
-    return kv_family(ctx, "C12", ["ScanComplete"], "engine scan")
+@register("C12")
+def c12(ctx):
+    quick = ctx.tier == "quick"
+    ctx.assumptions += ["no writes run while a scan is in progress (the statement quantifies over keys present during the whole iteration)",
+                        "the set of keys a raw cursor walk must yield is read white-box from the scanned fragment"]
+    # 1. storage engine cursors (KVStore.tla ScanComplete + real kvstore scans of every exported path)
+    cov = kv_run(ctx, "C12", ["ScanComplete"], "engine scan")
+    # 2. the client iterator's state machine
+    vlib.design_check(ctx, "Iterator", "Iterator.cfg", timeout=1500)
+    # 3. complete iterations on real clusters
+    out = ctx.dir("scan")
+    rc, o = vlib.go_test(ctx, "scan", "TestScan", env={"VERIF_OUT": out, "VERIF_ROUNDS": 1 if quick else 12}, timeout=2400)
+    if crash_or_fail(ctx, rc, o, "iterating DMaps"):
+        return vlib.finish(ctx, cov)
+    summ = json.load(open(os.path.join(out, "scan.summary.json")))
+    accepted, failures = vlib.validate_chunks(ctx, "ScanTrace", "ScanTrace.cfg", os.path.join(out, "scan.ndjson"), consts={}, name="scan")
+    ctx.traces += accepted
+    for seq_lines, line, msg in failures:
+        head = json.loads(seq_lines[0])
+        ev = json.loads(seq_lines[line - 1])
+        missing = sorted(set(ev.get("want", [])) - set(ev.get("got", [])))[:10]
+        vlib.report_failure(ctx, "scan: %s [%s] missing=%s" % (msg, head.get("cfg"), missing),
+                            {"kind": "scan", "msg": msg, "via": ev.get("via", "").split(" ")[0], "fragmented": "fragmented=True" in head.get("cfg", "")},
+                            {"reset": head, "scan": {k: (v if k not in ("want", "got") else v[:60]) for k, v in ev.items()}})
+    # 4. spec -> code: every initial state of Iterator.tla (owners' key lists in scan order, page size) with every
+    #    position of a routing-table refresh is built on a real cluster with fragmented partitions and iterated
+    re = vlib.design_check(ctx, "Iterator", "Iterator_export.cfg", timeout=900, name="iterator-export")
+    scen = sorted(set(vlib.behaviours(re)))
+    if quick:
+        import random
+        random.Random(ctx.seed).shuffle(scen)
+        scen = scen[:260]
+    behfile = os.path.join(out, "itbeh.jsonl")
+    open(behfile, "w").write("\n".join(scen) + "\n")
+    rc, o = vlib.go_test(ctx, "scan", "TestScanModel", env={"VERIF_OUT": out, "VERIF_BEH": behfile}, timeout=2400)
+    if crash_or_fail(ctx, rc, o, "iterating model scenarios"):
+        return vlib.finish(ctx, cov)
+    msumm = json.load(open(os.path.join(out, "scanmodel.summary.json")))
+    acc2, fails2 = vlib.validate_chunks(ctx, "ScanTrace", "ScanTrace.cfg", os.path.join(out, "scanmodel.ndjson"), consts={}, name="scanmodel")
+    ctx.traces += acc2
+    for seq_lines, line, msg in fails2:
+        head = json.loads(seq_lines[0])
+        ev = json.loads(seq_lines[line - 1])
+        missing = sorted(set(ev.get("want", [])) - set(ev.get("got", [])))[:10]
+        vlib.report_failure(ctx, "scan: %s [%s] missing=%s" % (msg, head.get("cfg"), missing),
+                            {"kind": "scan", "msg": msg, "via": ev.get("via", "").split(" ")[0], "fragmented": True, "model_scenario": True},
+                            {"reset": head, "scan": {k: (v if k not in ("want", "got") else v[:60]) for k, v in ev.items()}})
+    cov["evaluations"] += summ["evaluations"] + msumm["evaluations"]
+    cov["distinct_nontrivial"] += summ["distinct_nontrivial"] + msumm["distinct_nontrivial"]
+    cov["iterator_model_scenarios"] = msumm["scenarios"]
+    cov["cluster_scans"] = summ["evaluations"]
+    cov["cluster_configs"] = summ["configs"]
+    cov["samples"] = (cov.get("samples") or [])[:2] + summ["samples"][:2]
+    cov["rule"] = (cov["rule"] + "; cluster level: DMaps of 0-300 keys on clusters N in 1..3, R in 1..2, single/multi-table fragments, after inserts, "
+                   "overwrites/deletes, compaction, and while a partition has a previous owner holding data (before, between and after table moves); "
+                   "complete iterations through the embedded and the cluster client iterator (COUNT 1,2,3,10,default,1000; MATCH patterns) and raw DM.SCAN "
+                   "cursor walks of every fragment; non-trivial = multi-table fragment or fragmented partition")
+    return vlib.finish(ctx, cov)
 
 
 # ------------------------------------------------------------------ per-key register family
